@@ -125,6 +125,17 @@ CLAIMED = {
         design="DESIGN §8 C16",
         technique="Lean 4 proof (soundness of an effect discipline by induction on call depth and on histories) over an IR "
                   "regenerated from the source + monitored histories"),
+    "C19": dict(
+        text="Theorems over a Lean model of main.py's dispatch (over what argparse returns) and the -P... escaping: which "
+             "library-level operation runs for each argument shape (date-time + offsets applied in order, empty offsets "
+             "skipped, sign split; two date-times -> signed difference, --as-total on that same duration; R... -> first N "
+             "points, N = --max for N>=1; --as-total on a duration; option over environment variable over default). The "
+             "check executes the model's plan through the library API and compares it with the real command run "
+             "in-process (stdout / exit), including malformed arguments in every slot; argparse, now, stdin and the "
+             "datetime fallbacks are outside the model; 'never a traceback' is observed, not proved. The composed library "
+             "operations themselves are the subject of C01-C18.",
+        design="DESIGN §8 C19",
+        technique="Lean 4 proof (decision logic stated outright) + plan-execution correspondence against the real CLI"),
     "C03": dict(
         text="Theorems over the Lean model: the six conversions are total on valid dates, produce valid dates and "
              "preserve the Spec day number (so all round trips are identities), for every year in Int and all four "
